@@ -15,7 +15,8 @@ RULE = (
     "{no RETURNING, RETURNING, RETURNING sort_by_parameter_order} x insertmanyvalues page size {1,2,3,1000}; "
     "family render-sqlite / render-pg (ON CONSTRAINT included) and render-mysql (dict and ordered-list arguments, "
     "VALUES() and row-alias forms): the clause text tokenised and compared with the model's rendering; family "
-    "batch-decision: the batching choice of _deliver_insertmanyvalues_batches on PostgreSQL/SQLite compilations. "
+    "batch-decision: all 64 flag combinations driven through the real _deliver_insertmanyvalues_batches; family plan-pg: "
+    "PostgreSQL compilation + real batch delivery (not executed): statement sizes and the bindparam values each row runs with. "
     "non-trivial = exec case in which at least one parameter set clashes with an existing or earlier row, or a render "
     "case with >= 2 SET items"
 )
@@ -930,6 +931,24 @@ def _batch_decision(t_in):
     return int(len(b.batch) == 1 and b.total_batches == 3)
 
 
-LEVEL_TEXT = "see final report"
-LEVEL_NOTE = ""
-TECHNIQUE = "Coq proof (render/parse round trip, assembly = permutation, fold refinement of the batching strategies); source pin; SQLite-validated reference semantics; textual comparison of PostgreSQL/MySQL renderings"
+LEVEL_TEXT = (
+    "Machine-checked proof (Coq) over a Gallina model of the whole path construct -> clause assembly "
+    "(visit_on_conflict_do_update / _on_conflict_target / visit_on_duplicate_key_update) -> rendered tokens -> "
+    "hand-written parser -> executemany strategy (row at a time / multi-row VALUES pages, paramstyle-dependent source "
+    "of the non-VALUES parameters) over a reference database with unique (partial, composite) indexes: render/parse "
+    "round trip; assembly = permutation of the user's SET items with the same target and WHERE; SET order irrelevant; "
+    "executemany = fold of upsert_one for every table, parameter list (duplicates included), clause list, RETURNING mode "
+    "and page size (guarded), exact parameter order of RETURNING rows under sort_by_parameter_order for ANY order in which "
+    "the database returns the rows of one statement; three refuted regions with concrete witnesses (two reproduced on "
+    "SQLite, one on the PostgreSQL batches produced offline); MySQL ordering theorems. The SQLite instance of the "
+    "reference semantics is validated against SQLite 3.40 on every run; PostgreSQL/MySQL semantics are trusted."
+)
+LEVEL_NOTE = (
+    "Trusted: Coq kernel; the hand transcription (source pin + AST checks of the batching conditions + behavioural "
+    "correspondence: executed on SQLite, token-level for PostgreSQL/MySQL renderings, batch plans for PostgreSQL); the "
+    "tokeniser; PostgreSQL/MySQL upsert semantics. No axioms (Print Assumptions: closed under the global context). "
+    "Not covered: ON CONFLICT DO UPDATE without conflict target, repeated conflict targets (SQLite 3.40 itself replaces "
+    "the row on the rowid conflict then), set_ with both the key string and the Column object of one column, "
+    "insert-from-select upserts, RETURNING order restoration with an embedded counter (C12), drivers' own executemany rewriting."
+)
+TECHNIQUE = "Coq proof (render/parse round trip, assembly = permutation, fold refinement of the batching strategies); source pin; SQLite-validated reference semantics; textual comparison of PostgreSQL/MySQL renderings; offline batch plans"
